@@ -451,6 +451,24 @@ class Interp:
                 return mk_bool(False) if last == 'is_some_and' else v
             r = self.call_closure(args[1], [v[3]['0']])
             return mk_option(r) if last == 'map' else r
+        # std range types are comparisons in disguise: (a..b).contains(&x) == a <= x && x < b, etc.
+        if d == 'std::ops::RangeInclusive::new':
+            return ('adt', 'std::ops::RangeInclusive', None, {'start': args[0], 'end': args[1]})
+        if last == 'contains' and d.startswith('std::ops::Range'):
+            rg = self.deref(args[0])
+            if rg[0] != 'adt' or not rg[1].startswith('std::ops::Range'):
+                raise Unsupported('contains on %s' % (rg,))
+            kind = rg[1].rsplit('::', 1)[-1]
+            lo = hi = True
+            if kind in ('Range', 'RangeInclusive', 'RangeFrom'):
+                lo = self.compare(rg[3]['start'], args[1]) <= 0
+            if kind in ('Range', 'RangeTo'):
+                hi = self.compare(args[1], rg[3]['end']) < 0
+            if kind in ('RangeInclusive', 'RangeToInclusive'):
+                hi = self.compare(args[1], rg[3]['end']) <= 0
+            if kind not in ('Range', 'RangeInclusive', 'RangeFrom', 'RangeTo', 'RangeToInclusive'):
+                raise Unsupported('range kind %s' % kind)
+            return mk_bool(lo and hi)
         # closures called through Fn traits
         if d.startswith('std::ops::Fn') and last in ('call', 'call_mut', 'call_once'):
             targs = self.deref(args[1])
